@@ -10,6 +10,7 @@ import (
 	"strconv"
 
 	"com.tuntun.rangers/node/src/common"
+	"com.tuntun.rangers/node/src/middleware/db"
 	"com.tuntun.rangers/node/src/middleware/log"
 	"com.tuntun.rangers/node/src/middleware/types"
 )
@@ -99,4 +100,14 @@ func VerifGCForkSwitch(ancHeight uint64, groups []*types.Group) (found bool, onC
 	onChain = fork.triggerOnChain(chain)
 	fork.destroy()
 	return true, onChain
+}
+
+// VerifGCWrapStore replaces the group chain's store handle by wrap(handle) (e.g. a db.Database that parks
+// the caller at a chosen Put, to observe what readers see in the middle of save/remove) and returns the
+// previous handle; pass a function returning that handle to undo it.
+func VerifGCWrapStore(wrap func(db.Database) db.Database) db.Database {
+	chain := groupChainImpl
+	old := chain.groups
+	chain.groups = wrap(old)
+	return old
 }
